@@ -5,7 +5,8 @@ from checks.common import CheckResult, VERIF, standard_flow
 
 C = lambda *fs: [os.path.join(VERIF, "contracts", f) for f in fs]  # noqa: E731
 FILES = C("node_port.py", "refuse.py")
-TARGETS = ["hugr.ops._CallOrLoad.__init__", "hugr.ops._check_complete", "hugr.build.cond_loop.Conditional.add_case", "hugr.build.cond_loop.Conditional.__exit__"]
+TARGETS = ["hugr.ops._CallOrLoad.__init__", "hugr.ops._check_complete", "hugr.build.cond_loop.Conditional.add_case", "hugr.build.cond_loop.Conditional.__exit__",
+           "hugr.build.cond_loop.Conditional._update_outputs", "hugr.build.dfg.Function.set_outputs", "hugr.build.cfg.Cfg.branch_exit"]
 TRACKED = (C("tracked.py", "node_port.py"), ["hugr.build.tracked_dfg.TrackedDfg.tracked_wire", "hugr.build.tracked_dfg.TrackedDfg.untrack_wire"])
 # incomplete operations: every signature accessor raises IncompleteOp exactly when its row is not set (contracts shared with C06)
 OPS = (C("node_port.py", "tys.py", "ops.py"), ["hugr.ops.Output.outer_signature", "hugr.ops.DFG.outer_signature", "hugr.ops.DFG.inner_signature", "hugr.ops.CFG.outer_signature",
@@ -15,13 +16,19 @@ OPS = (C("node_port.py", "tys.py", "ops.py"), ["hugr.ops.Output.outer_signature"
 def run(tier, seed):
     res = CheckResult("C13", tier, seed)
     res.trusted_base = ["pyvc encoding of the supported Python subset (DESIGN 2, A1)", "exceptional postconditions: `raises {E: cond}` is checked in both directions (E is raised whenever cond holds, and only then)"]
-    res.assumptions = ["the refusals that depend on the graph store and on equality of type rows (NoSiblingAncestor / NotInSameCfg in _wire_up_port, mismatched case outputs, MismatchedExit, declared function "
-                       "outputs, non-function / non-dataflow ports, integers in an untracked builder) are decided by the bounded run only"]
+    res.trusted_base += ["equality of types is the opaque dataclass relation (dc_eq); rows compare element by element and in length",
+                         "ParentBuilder.parent_op (read through the graph store) is a trusted accessor naming the root node's operation object, assumed stable while the builder is used; "
+                         "_get_dataflow_type names its result (ghost) and may raise ValueError under a condition left open here; the plain DfBase.set_outputs is a trusted callee"]
+    res.assumptions = ["the refusals that depend on the graph store (NoSiblingAncestor / NotInSameCfg in _wire_up_port, "
+                       "non-function / non-dataflow ports, integers in an untracked builder) are decided by the bounded run only"]
     standard_flow(res, FILES, TARGETS, None, bounded_modules=[("bounded.c13", 300, 900)], more=[TRACKED, OPS])
     res.level = "other"
     res.explanation = ("Proved with exact raise conditions from the real source: _CallOrLoad.__init__ raises NoConcreteFunc exactly when a polymorphic function is called / loaded without an instantiation or "
                        "with a different number of type arguments than parameters; Conditional.add_case raises ConditionalError exactly for an index outside 0..n-1 (a genuine defect for negative indices "
                        "was repaired) or an already built case, leaving the builder unchanged; Conditional.__exit__ raises exactly when a case is unbuilt; _check_complete and the signature accessors of "
                        "Output / DFG / CFG / Conditional / MakeTuple / UnpackTuple raise IncompleteOp exactly when the row is not set; TrackedDfg.tracked_wire / untrack_wire raise IndexError exactly "
-                       "for untracked indices. The remaining refusals are decided by 78 enumerated one-inconsistency programs (each with a consistent control) - bounded; hence category other.")
+                       "for untracked indices; Conditional._update_outputs raises ConditionalError exactly when a row has been established (an empty row counts) and the case's row differs, recording nothing, and otherwise "
+                       "establishes / keeps the row; Function.set_outputs raises ValueError whenever outputs are declared and the row of the wires' types differs from the declaration in length or at some position, "
+                       "and never changes the declaration; Cfg.branch_exit raises MismatchedExit exactly when an exit row has been established and the branching block's successor row differs from it (leaving the exit row as it was), "
+                       "and the first branch establishes the exit row and the CFG's outputs. The remaining refusals are decided by 78 enumerated one-inconsistency programs (each with a consistent control) - bounded; hence category other.")
     return res.finish()
